@@ -28,7 +28,7 @@ RULE = ("random spec-level alignment records (0..4 references, refID -1, read na
         "alignment_to_interval / {whole, filtered, reordered, chunk-stream} write back. Non-trivial = >= 2 records with "
         "different name-length / CIGAR-count / sequence-parity shapes")
 EXHAUSTIVE = {"quick": False, "thorough": False}
-MODEL_OPS = {"decode", "chunked", "interval", "write"}
+MODEL_OPS = {"decode", "chunked", "interval", "write", "count"}
 PARALLEL = 16
 ASSUMPTIONS = ["gzip.open(...).read(n) returns min(n, remaining) bytes of the concatenated members (BGZF = gzip members)",
                "NumPy fancy indexing / .view(dtype) / ragged_slice are modelled as list slices and little-endian sums",
@@ -221,10 +221,30 @@ def impl(c):
     p, body = write_file(c)
     out = None
     try:
-        if op == "decode":
+        kw = {"lazy": False} if c.get("lazy") is False else {}
+        if op == "count":
+            try:
+                return {"n": int(bnp.count_entries(p))}
+            except Exception as e:
+                return _err(e)
+        if op == "write_modified":
+            out = _path("out")
             try:
                 d = bnp.open(p).read()
-                info = d.get_context("header").info if len(c["recs"]) else [tuple(x) for x in c["refs"]]
+                d2 = bnp.replace(d, **{c["field"]: np.asarray(getattr(d, c["field"])) + 1})
+                try:
+                    with bnp.open(out, "w") as f:
+                        f.write(d2)
+                except Exception as e:
+                    return {"refused": type(e).__name__}
+                text, refs, recs, hdr_end = decode_file_bytes(gzip.decompress(open(out, "rb").read()))
+                return {"recs": [_full(r) for r in recs]}
+            except Exception as e:
+                return _err(e)
+        if op == "decode":
+            try:
+                d = bnp.open(p, **kw).read()
+                info = d.get_context("header").info if (len(c["recs"]) and not kw) else [tuple(x) for x in c["refs"]]
                 return {"enc": bhash(body), "hdr": bhash(encode_header(c["refs"], bytes(c["text"]))),
                         "refs": [[str(n), int(l)] for n, l in info], "recs": _rows(d)}
             except Exception as e:
@@ -232,7 +252,7 @@ def impl(c):
         if op == "chunked":
             try:
                 chunks = []
-                for i, ch in enumerate(bnp.open(p).read_chunks(min_chunk_size=c["k"])):
+                for i, ch in enumerate(bnp.open(p, **kw).read_chunks(min_chunk_size=c["k"])):
                     chunks.append(_rows(ch))
                     if i > len(c["recs"]) + 2:
                         return {"err": "nonterminating"}
@@ -241,8 +261,8 @@ def impl(c):
                 return _err(e)
         if op == "interval":
             try:
-                a = _irows(bnp.open(p, buffer_type=BamIntervalBuffer).read())
-                b = _irows(alignment_to_interval(bnp.open(p).read()))
+                a = _irows(bnp.open(p, buffer_type=BamIntervalBuffer, **kw).read())
+                b = _irows(alignment_to_interval(bnp.open(p, **kw).read()))
                 return {"buf": a, "fn": b}
             except Exception as e:
                 return _err(e)
@@ -294,6 +314,11 @@ def oracle(c):
     op = c["op"]
     refs, recs = c["refs"], c["recs"]
     body = b"".join(encode_record(r) for r in recs)
+    if op == "count":
+        return {"n": len(recs)}
+    if op == "write_modified":
+        key = {"position": "pos", "mapq": "mapq", "flag": "flag"}[c["field"]]
+        return {"refused_or": [_full(dict(r, cigar=[list(x) for x in r["cigar"]], **{key: r[key] + 1})) for r in recs]}
     if op == "decode":
         return {"enc": bhash(body), "hdr": bhash(encode_header(refs, bytes(c["text"]))), "refs": [[n, l] for n, l in refs],
                 "recs": [view(refs, r) for r in recs]}
@@ -316,6 +341,9 @@ def oracle(c):
 def agree(c, got, exp):
     if not isinstance(got, dict) or "err" in got:
         return False
+    if c["op"] == "write_modified":
+        # a BAM chunk with replaced values must be written with the new values or refused; never silently as it was read
+        return "refused" in got or core.canon(got.get("recs")) == core.canon(exp["refused_or"])
     if c["op"] == "chunked":
         return core.canon(got.get("recs")) == core.canon(exp["recs"])
     if c["op"] == "write":
@@ -406,6 +434,10 @@ def finding_key(c, got, exp):
                         return "interval:n_cigar>=16384"
                     return f"interval:{which}:wrong-" + ["chromosome", "start", "stop", "name", "score", "strand"][bad[0][1]]
                 return f"interval:{which}:wrong-count"
+    if op == "count":
+        return "count_entries:wrong-count"
+    if op == "write_modified":
+        return "write:modified-values-silently-dropped"
     if op == "write":
         for k in ("eof", "refs", "recs"):
             if core.canon(got.get(k)) != core.canon(exp[k]):
@@ -593,6 +625,22 @@ def cases(tier, rng):
         for k in sorted({s + 1, s + 2, 2 * s, 2 * s + 1, 2 * s + 2, 2 * s + 3, 3 * s + 1, 3 * s + 2}):
             yield dict(c, op="chunked", k=k)
         yield dict(c, op="write", mode="chunks", idx=[], k=rng.choice([s + 1, s + 2, 2 * s + 1]))
+    # eager reading (BamBuffer.get_data / BamIntervalBuffer.get_data), count_entries, writing a chunk with replaced values
+    yield {"op": "count", "refs": two, "text": [], "recs": [base, unm, rv], "blk": 4096, "eof": True}
+    for _ in range(40 * f):
+        c = rand_file(rng)
+        yield dict(c, op=rng.choice(["decode", "interval"]), lazy=False)
+        yield dict(rand_file(rng), op="count")
+    for _ in range(15 * f):
+        c = rand_file(rng, nrec=rng.choice([1, 2, 3, 4]), small=True)
+        for k in _ks(rng, c, every=False)[:4]:
+            yield dict(c, op="chunked", k=k, lazy=False)
+    for _ in range(20 * f):
+        c = rand_file(rng, nrec=rng.choice([1, 2, 4]))
+        fld = rng.choice(["position", "mapq", "flag"])
+        for r in c["recs"]:
+            r["pos"], r["mapq"], r["flag"] = min(r["pos"], 10 ** 6), min(r["mapq"], 200), min(r["flag"], 60000)
+        yield dict(c, op="write_modified", field=fld)
     # random files
     for _ in range(500 * f):
         yield dict(rand_file(rng), op="decode")
